@@ -178,6 +178,7 @@ def lowered_body(spec, unit, log):
     body = lower.apply_rules(body, unit.rules, log, 'pre')
     body = lower.apply_rules(body, spec.rules, log, 'pre')
     body = lower.apply_rules(body, lower.PRE_IDIOMS, log)
+    body = lower.apply_rules(body, lower.GENERIC_CALLRULES, log)
     body = lower.lower_std_move(body, unit.fnslots)
     body = lower.lower_casts(body)
     body = lower.apply_rules(body, lower.GENERIC, log)
@@ -313,6 +314,23 @@ def build_tu(spec, workdir):
     tu.add('{')
     if spec.harness:
         tu.add(spec.harness)
+    elif spec.selfharness:
+        # the object under test lives in the harness (so that optional sub-objects can be present or absent):
+        #   @selfharness <struct> [field=<struct>?] ...   each listed pointer field is either null or points to a fresh object
+        toks = spec.selfharness.split()
+        tu.add('  struct %s s_;' % toks[0])
+        for i, t in enumerate(toks[1:]):
+            fld, ty = t.split('=')
+            opt = ty.endswith('?')
+            ty = ty.rstrip('?')
+            tu.add('  struct %s o%d_;' % (ty, i))
+            tu.add('  s_.%s = %s&o%d_%s;' % (fld, 'nondet_bool() ? ' if opt else '', i, (' : (struct %s *)0' % ty) if opt else ''))
+        args = ['&s_']
+        for i, p in enumerate(extract.split_top(spec.cparams)[1:]):
+            m = re.match(r'(.*?)(\w+)\s*$', p.strip(), re.S)
+            tu.add('  %s a%d;' % (m.group(1).strip(), i))
+            args.append('a%d' % i)
+        tu.add('  %s(%s);' % (spec.cname, ', '.join(args)))
     else:
         args = []
         for i, p in enumerate(extract.split_top(spec.cparams)):
